@@ -1,5 +1,93 @@
-(** C08 — property theorems (in progress). *)
+(** C08 — The lexer is total and reports faithful token positions.
+
+    All theorems are about [lex xs xc true true], the model (Lexer/Model.v) of the CURRENT lexer
+    (erg_parser::lex::Lexer::from_str(src).lex(), items in the order the iterator yields them), for EVERY
+    classification [xs]/[xc] of identifier characters (unicode_xid) and EVERY input [src : list Z].
+    The switches [false false] select the lexer as it was before the C08 repairs; the [_refuted] theorems are
+    stated on that faithful nofix model and their witnesses are replayed on the implementation by the check
+    (known/C08.json, status fixed).  No [Known_C08] guard is needed any more: the drift classes
+    (escape sequences, multi-line strings/comments, swallowed line breaks) were repaired in /repo. *)
 From Coq Require Import ZArith List Bool Arith Lia.
-From ErgV Require Import Lexer.Model Lexer.Spec Lexer.Proofs.
+From ErgV Require Import Lexer.Model Lexer.Spec Lexer.Proofs Lexer.ProofsSub Lexer.ProofsNext.
 Import ListNotations.
 Open Scope Z_scope.
+
+(** Termination with an explicit fuel bound: 2 * |text| + 4 calls of Iterator::next always suffice
+    (measure: 2 * remaining characters + indentation depth + "EOF not yet emitted"; the dedent rewinds the
+    cursor but pops the indentation stack). *)
+Theorem lex_terminates : forall (xs xc : Z -> bool) (src : list Z),
+  lex_loop xs xc true true (length (normalize_newline src) * 2 + 4) (init (normalize_newline src)) [] <> Fuel.
+Proof. exact lex_terminates_lemma. Qed.
+
+(** No unwrap / index / subtraction / debug assertion on the modelled path can fail. *)
+Theorem lex_no_panic : forall (xs xc : Z -> bool) (src : list Z),
+  lex xs xc true true src <> Panic.
+Proof. exact lex_no_panic_lemma. Qed.
+
+Theorem lex_total : forall (xs xc : Z -> bool) (src : list Z),
+  exists items, lex xs xc true true src = Ok items.
+Proof. exact lex_total_lemma. Qed.
+
+(** The token stream ends with EOF and has as many Dedents as Indents, or there is at least one error. *)
+Theorem lex_eof_or_error : forall (xs xc : Z -> bool) (src : list Z) (items : list item),
+  lex xs xc true true src = Ok items -> eof_or_error items.
+Proof. exact lex_eof_or_error_lemma. Qed.
+
+(** Every token of the stream is reported at the line / column of its first source character (the ghost
+    [tk_start], computed from the cursor only) and the tokens are in source order. *)
+Theorem lex_pos_faithful : forall (xs xc : Z -> bool) (src : list Z) (items : list item),
+  lex xs xc true true src = Ok items -> pos_faithful (normalize_newline src) items.
+Proof. exact lex_pos_faithful_lemma. Qed.
+
+(* ------------------------------------------------------------------ non-vacuity *)
+Definition ascii_letter (c : Z) : bool := ((97 <=? c) && (c <=? 122)) || ((65 <=? c) && (c <=? 90)).
+Definition ascii_cont (c : Z) : bool := ascii_letter c || ((48 <=? c) && (c <=? 57)) || (c =? 95).
+
+(* the text  f x =  NEWLINE  four spaces, a string literal  a backslash n  , + y NEWLINE :
+   a block (Indent/Dedent), a string with an escape, a token after it *)
+Definition ex_block : list Z :=
+  [102;32;120;32;61;10;32;32;32;32;34;97;92;110;34;32;43;32;121;10].
+
+Example lex_block_example :
+  exists items, lex ascii_letter ascii_cont true true ex_block = Ok items /\
+    map (fun t => (tk_kind t, tk_line t, tk_col t)) (tokens_of items) =
+      [(Symbol,1,0); (Symbol,1,2); (Assign,1,4); (Newline,1,5); (Indent,2,0); (StrLit,2,4); (Plus,2,10);
+       (Symbol,2,12); (Newline,2,13); (Dedent,3,0); (EOF,3,0)] /\
+    errors_of items = [] /\ ends_with_eof_balanced (tokens_of items) = true.
+Proof. eexists. split; [vm_compute; reflexivity|]. split; [reflexivity|]. split; reflexivity. Qed.
+
+(* an unterminated string ending in a backslash: one error, then EOF *)
+Example lex_error_example :
+  exists e t eof, lex ascii_letter ascii_cont true true [120;32;61;32;34;97;92] =
+    Ok [ITok (mk_token Symbol [120] 1 0 0); ITok (mk_token Assign [61] 1 2 2); IErr e t; ITok eof]
+    /\ e = E_UnclosedStr 1 /\ tk_kind eof = EOF.
+Proof. do 3 eexists. split; [vm_compute; reflexivity|]. split; reflexivity. Qed.
+
+(* ------------------------------------------------------------------ the lexer before the repairs *)
+(** the three characters  double-quote a backslash : the input ends right after a backslash inside a string
+    literal: consume().unwrap() panics *)
+Theorem lex_no_panic_refuted :
+  exists src, forall xs xc : Z -> bool, lex xs xc false false src = Panic.
+Proof. exists [34;97;92]. intros xs xc. vm_compute. reflexivity. Qed.
+
+(** the six characters  double-quote backslash n double-quote + 1 : the string token is 4 characters long in the source but 3 after cooking, the column bookkeeping
+    added the cooked length: `+` (source index 4) was reported at column 3 *)
+Theorem lex_pos_faithful_refuted :
+  exists src items, (forall xs xc : Z -> bool, lex xs xc false false src = Ok items) /\
+                    ~ pos_faithful (normalize_newline src) items.
+Proof.
+  exists [34;92;110;34;43;49]. eexists. split; [intros xs xc; vm_compute; reflexivity|].
+  intros [H _].
+  specialize (H (mk_token Plus [43] 1 3 4) ltac:(cbn; tauto)).
+  destruct H as [_ H]. vm_compute in H. discriminate H.
+Qed.
+
+(** the same inputs on the current lexer *)
+Example lex_no_panic_witness_now :
+  forall xs xc : Z -> bool, exists items, lex xs xc true true [34;97;92] = Ok items /\ errors_of items <> [].
+Proof. intros xs xc. eexists. split; [vm_compute; reflexivity|]. discriminate. Qed.
+
+Example lex_pos_witness_now :
+  forall xs xc : Z -> bool, exists items, lex xs xc true true [34;92;110;34;43;49] = Ok items /\
+    map (fun t => (tk_kind t, tk_col t)) (tokens_of items) = [(StrLit,0); (Plus,4); (NatLit,5); (EOF,6)].
+Proof. intros xs xc. eexists. split; [vm_compute; reflexivity|]. reflexivity. Qed.
